@@ -472,3 +472,71 @@ def li_raises(ctx, st, exc):
 UNITS.append(Unit("C15", "jsonargparse._link_arguments:ActionLink.__init__", li_setup, li_post, li_raises, max_paths=20000, expect_cover=("return", "raise:ValueError"),
                   trusted=["find_parent_or_child_actions / find_subclass_action_or_class_group / _find_parent_action resolve keys to actions (C06 units for the latter)", "_initial_input_checks: its own unit; instantiation_order: C16 unit",
                            "argparse.Action.__init__ (super()) stores the keywords"]))
+
+
+# apply_parsing_links, source handling: a link whose class-typed source is not in the configuration is left for later (not applied with a
+# missing value); every source is re-checked by its own action before it is read; a namespace is handed over as a dict exactly when the
+# receiving side (the target's type, or the compute function's parameter) is a mapping
+def ap2_setup(ctx):
+    scen = ["class-source-missing", "class-source-present", "namespace-to-mapping-target", "namespace-to-plain-target", "namespace-to-init_arg-mapping", "fn-with-mapping-parameter", "fn-with-plain-parameter"][ctx.choose(7, "scenario")]
+    ctx.classes.add("Namespace", ["object"])
+    ctx.classes.add("ActionTypeHint", ["Action"])
+    as_dict = Rec("dict from as_dict")
+    ns_val = Rec("Namespace", attrs={"tag": "source value"}, methods={"as_dict": lambda c, s_, a, k: (c.event("as_dict"), as_dict)[1]})
+    plain = z3.Int("source value")
+    src_action = Rec("ActionTypeHint", attrs={"dest": "src", "class_typed": scen.startswith("class-source")})
+    store = {}
+    if scen != "class-source-missing":
+        store["src"] = ns_val if scen.startswith(("namespace", "fn")) else plain
+    target_action = Rec("ActionTypeHint", attrs={"dest": "tgt" if scen != "namespace-to-init_arg-mapping" else "m", "_typehint": Rec("hint"), "mapping": scen == "namespace-to-mapping-target"},
+                        methods={"is_mapping_typehint": lambda c, s_, a, k: s_.attrs["mapping"], "is_init_arg_mapping_typehint": lambda c, s_, a, k: (c.event("init-arg-mapping?", a[0], a[1]), scen == "namespace-to-init_arg-mapping")[1]})
+    computed = Rec("computed")
+    has_fn = scen.startswith("fn")
+    link = Rec("ActionLink", attrs={"source": [("src", [src_action])], "target": ("tgt" if scen != "namespace-to-init_arg-mapping" else "m.init_args.d", target_action), "compute_fn": Rec("fn") if has_fn else None,
+                                    "option_strings": ["--l"], "apply_on": "parse"}, methods={"call_compute_fn": lambda c, s_, a, k: (c.event("compute", list(a[0])), computed)[1]})
+    cfg = Rec("Namespace", methods={"__contains__": lambda c, s_, a, k: a[0] in store, "__getitem__": lambda c, s_, a, k: store[a[0]]})
+    parser = Rec("ArgumentParser", attrs={"_links_group": Rec("g"), "logger": Rec("Logger", methods={"debug": lambda c, s_, a, k: c.event("logged")})},
+                 methods={"_check_value_key": lambda c, s_, a, k: (c.event("check-source", a[0], a[1], a[2], a[3]), a[1])[1]})
+    param = Rec("ParamData", attrs={"annotation": Rec("annotation", attrs={"mapping": scen == "fn-with-mapping-parameter"})})
+    calls = {
+        "apply_config_skip.get": lambda c, a, k: False, "_ActionPrintConfig.is_print_config_requested": lambda c, a, k: False,
+        "_ActionSubCommands.get_subcommand": lambda c, a, k: (c.event("get_subcommand", a[0], a[1], dict(k)), (None, None))[1],
+        "get_link_actions": lambda c, a, k: (c.event("links-of", a[0], a[1]), [link])[1],
+        "ActionTypeHint.is_subclass_typehint": lambda c, a, k: a[0].attrs.get("class_typed", False),
+        "ActionTypeHint.is_mapping_typehint": lambda c, a, k: a[0].attrs.get("mapping", False),
+        "get_signature_parameters": lambda c, a, k: [param],
+        "ActionLink.set_target_value": lambda c, a, k: c.event("set-target", a[0], a[1], a[2], a[3]),
+    }
+    return Setup(env={"parser": parser, "cfg": cfg}, calls=calls, consts={"Namespace": ClassRef("Namespace"), "ActionTypeHint": ClassRef("ActionTypeHint")},
+                 data=dict(scen=scen, link=link, ns_val=ns_val, plain=plain, as_dict=as_dict, computed=computed, parser=parser, cfg=cfg, src_action=src_action, store=store))
+
+
+def ap2_post(ctx, st, result):
+    d = st.data
+    tag = f"[{d['scen']}]"
+    ev = ctx.events
+    sets = [e for e in ev if e[0] == "set-target"]
+    gs = [e for e in ev if e[0] == "get_subcommand"]
+    ctx.oblige("post", "the-selected-subcommand-is-looked-up-on-this-parser-and-configuration,without-failing-when-there-is-none" + tag, len(gs) == 1 and gs[0][1] is d["parser"] and gs[0][2] is d["cfg"] and gs[0][3] == {"fail_no_subcommand": False})
+    if d["scen"] == "class-source-missing":
+        ctx.oblige("post", "a-link-whose-class-typed-source-is-not-in-the-configuration-is-not-applied(nothing is read from a missing key)" + tag, not sets and not [e for e in ev if e[0] in ("check-source", "compute")])
+        return
+    ck = [e for e in ev if e[0] == "check-source"]
+    ctx.oblige("post", "the-source-is-re-checked-by-its-own-action,on-its-own-value,before-it-is-read" + tag, len(ck) == 1 and ck[0][1] is d["src_action"] and ck[0][2] is d["store"]["src"] and ck[0][3] == "src" and ck[0][4] is None)
+    want = {"class-source-present": d["plain"], "namespace-to-mapping-target": d["as_dict"], "namespace-to-plain-target": d["ns_val"], "namespace-to-init_arg-mapping": d["as_dict"],
+            "fn-with-mapping-parameter": d["computed"], "fn-with-plain-parameter": d["computed"]}[d["scen"]]
+    ctx.oblige("post", "the-target-is-set-once,to-the-source-value(a namespace as a dict exactly when the target's type is a mapping)-or-to-what-the-function-computes" + tag,
+               len(sets) == 1 and sets[0][1] is d["link"] and sets[0][2] is want and sets[0][3] is d["cfg"])
+    if d["scen"].startswith("fn"):
+        cp = [e for e in ev if e[0] == "compute"]
+        arg = d["as_dict"] if d["scen"] == "fn-with-mapping-parameter" else d["ns_val"]
+        ctx.oblige("post", "the-function-receives-a-namespace-source-as-a-dict-exactly-when-its-parameter-is-annotated-as-a-mapping" + tag, len(cp) == 1 and len(cp[0][1]) == 1 and cp[0][1][0] is arg)
+    ctx.oblige("post", "only-the-parse-links-of-this-parser-are-applied" + tag, [e[1:] for e in ev if e[0] == "links-of"] == [(d["parser"], "parse")])
+
+
+def ap2_raises(ctx, st, exc):
+    ctx.oblige("raises", f"no-own-exception[{st.data['scen']}](got {exc.cls}@{exc.origin})", False)
+
+
+UNITS.append(Unit("C15", "jsonargparse._link_arguments:ActionLink.apply_parsing_links", ap2_setup, ap2_post, ap2_raises, label="source-handling", max_paths=500,
+                  trusted=["is_subclass_typehint / is_mapping_typehint / is_init_arg_mapping_typehint classify type hints", "get_signature_parameters: C13", "set_target_value / call_compute_fn: their own units"]))
